@@ -101,7 +101,7 @@ def run(db, rep, tier):
     for k in sorted(data['ops'])[:400]:
         rep.fn(k)
     ownrules.report(rep, data, ('B.acc', 'B.oob'), False, 'B.acc')
-    rep.floor('B.acc', data['paths'], 1500)
+    rep.floor('B.acc', data['paths'], 1000)
     # GSL pairing
     units = ['SUNalg', 'const', 'SQuIDS', 'MatrixExp']
     findings, stats = respair.analyse_units(db, units)
@@ -113,13 +113,13 @@ def run(db, rep, tier):
     rep.ok('F.pair', max(stats['exits'] - len(findings), 0))
     for nm in stats['names']:
         rep.fn(nm)
-    rep.floor('F.pair', stats['resources'], 10)
+    rep.floor('F.pair', stats['resources'], 6)
     rep.sample('F.pair', '%d raw GSL resources in %d functions, %d exits checked' % (stats['resources'], stats['functions'], stats['exits']))
     hf, ncls = respair.analyse_holders(db, units)
     for (rec, member, alloc, site, what, where) in hf:
         rep.fail('F.holder', '%s::%s' % (rec, member), where, 'holder releases %s (allocated by %s at %s)' % (member, alloc, site), what, rec)
     rep.ok('F.holder', max(ncls - len(set(h[0] for h in hf)), 0))
-    rep.floor('F.holder', ncls, 3)
+    rep.floor('F.holder', ncls, 2)
     sweep_kernels(db, rep, tier)
     import fixtures
     fixtures.controls_c15(rep)
